@@ -68,7 +68,7 @@ func (i *iter) Next() interface{} {
 	return i.n
 }
 
-const nKinds = 36
+const nKinds = 42
 
 // val: a value of kind k (payloads arbitrary where a payload can matter).
 func val(k int) interface{} {
@@ -146,8 +146,21 @@ func val(k int) interface{} {
 		return time.Date(2020, 2, 3, 4, 5, 6, 0, time.UTC) // the one struct type the output sink special-cases
 	case 34:
 		return (*time.Time)(nil)
-	default:
+	case 35:
 		return uint8(200)
+	case 36:
+		return (func(int) int)(nil) // a nil function value
+	case 37:
+		return float32(2.5)
+	case 38:
+		return map[uint8]string{1: "a", 200: "b"}
+	case 39:
+		p := &S{Name: "pp"}
+		return &p // pointer to pointer
+	case 40:
+		return uint64(1) << 63
+	default:
+		return int16(-3)
 	}
 }
 
